@@ -47,6 +47,7 @@ type Engine struct {
 	cardDone map[string]bool
 	condSets map[string]condSetInfo
 	privGlobals []string
+	hasLocals bool
 	condHandles map[string]condHandle
 	recFns map[string]*recInfo
 	privFields  map[string]string // field component -> package path, for unexported fields
@@ -62,6 +63,7 @@ type CallRec struct {
 	Index   int
 	Depth   int
 	After   *State // state right after the call returned
+	Before  *State // state right before the call
 }
 
 type Closure struct {
@@ -193,7 +195,9 @@ func (e *Engine) boxComp(t types.Type) string {
 
 func (e *Engine) mapDomComp(mt *types.Map) string {
 	ks := e.vc.sortOf(mt.Key())
-	name := "MapDom$" + strings.Trim(ks, "|")
+	vs := e.vc.sortOf(mt.Elem())
+	// one domain component per (key, value) type: maps of different types cannot alias
+	name := "MapDom$" + strings.Trim(ks, "|") + "$" + strings.Trim(vs, "|")
 	return e.comp(name, fmt.Sprintf("(Array Loc (Array %s Bool))", ks))
 }
 
